@@ -256,10 +256,11 @@ Proof.
   rewrite E, Hs. reflexivity.
 Qed.
 
-(* a resume-issued start request (not a rerun) for a task that has started meanwhile is ignored *)
+(* a resume-issued start request (not a rerun) for a task that has started meanwhile is ignored:
+   nothing changes, only a workflow completion check is registered *)
 Theorem stale_resume_start_ignored sp s tid reset :
   tid < length (tasks s) -> is_idle (t_state (get_task s tid)) = false ->
-  do_start_task sp s tid false false reset = (s, Ok).
+  do_start_task sp s tid false false reset = (add_pend s (IPtq [OCheck]), Ok).
 Proof.
   intros Hl Hs. unfold do_start_task. cbv zeta.
   assert (E : Nat.leb (length (tasks s)) tid = false) by (apply Nat.leb_gt; exact Hl).
